@@ -31,7 +31,7 @@ use lightning::chain::verif_hooks_package::monitor_known_preimages;
 use lightning::events::bump_transaction::BumpTransactionEvent;
 use lightning::events::Event;
 use lightning::ln::chan_utils::shared_anchor_script_pubkey;
-use lightning::ln::channelmanager::PaymentId;
+use lightning::ln::channelmanager::{PaymentId, BREAKDOWN_TIMEOUT};
 use lightning::ln::functional_test_utils::*;
 use lightning::ln::msgs::{BaseMessageHandler, ChannelMessageHandler};
 use lightning::ln::outbound_payment::RecipientOnionFields;
@@ -83,6 +83,7 @@ struct Stats {
 	lost_to_counterparty: u32,
 	spend_checked: u32,
 	findings: Vec<String>,
+	model: Vec<String>,
 }
 
 struct Fail {
@@ -425,6 +426,9 @@ fn scenario(seed: u64, mode_thorough: bool, trace: bool, descr: &mut String) -> 
 	// per node and bump claim id: last target feerate
 	let mut bump_targets: [HashMap<[u8; 32], u32>; 2] = [HashMap::new(), HashMap::new()];
 	let mut findings: BTreeSet<String> = BTreeSet::new();
+	// model trace per node: header, then ops (`P idx`, `B idx.ours.pre,...`) and observations (`O ...`)
+	let mut mtrace: [Vec<String>; 2] = [Vec::new(), Vec::new()];
+	let mut mknown: [BTreeSet<usize>; 2] = [BTreeSet::new(), BTreeSet::new()];
 	let mut fee_est = [253u32, 253u32];
 	let mut idle_blocks = 0u32;
 	let max_blocks = 460u32;
@@ -494,7 +498,17 @@ fn scenario(seed: u64, mode_thorough: bool, trace: bool, descr: &mut String) -> 
 							if let BumpTransactionEvent::HTLCResolution { claim_id, target_feerate_sat_per_1000_weight, .. } = &b {
 								let prev = bump_targets[n].insert(claim_id.0, *target_feerate_sat_per_1000_weight);
 								if let Some(pv) = prev {
-									if *target_feerate_sat_per_1000_weight < pv && judged(n, c) {
+									let late_preimage_on_holder = n == c && !cfg.prev
+										&& htlcs.iter().any(|h| matches!(h.know, Know::After(_)) && h.claim_tried && 1 - h.from == n);
+									if *target_feerate_sat_per_1000_weight < pv && judged(n, c) && late_preimage_on_holder
+										&& std::env::var("C07_EXPLORE_TOLERATE_STALE").is_err()
+									{
+										// F3: the re-requested claim of an already resolved HTLC starts over as
+										// a new package (feerate_previous = 0) under the same ClaimId
+										return Err(Fail { why: "KNOWN:F3-late-preimage-on-holder-commitment-reclaims-resolved-htlcs".to_string(),
+											detail: format!("node {} claim {:?}: target feerate restarts {} -> {}", n, &claim_id.0[..4], pv, target_feerate_sat_per_1000_weight) });
+									}
+									if *target_feerate_sat_per_1000_weight < pv && judged(n, c) && !late_preimage_on_holder {
 										return fail(
 											"(c) target feerate of an HTLC claim decreased",
 											format!("node {} claim {:?}: {} -> {}", n, &claim_id.0[..4], pv, target_feerate_sat_per_1000_weight),
@@ -751,6 +765,22 @@ fn scenario(seed: u64, mode_thorough: bool, trace: bool, descr: &mut String) -> 
 				}
 				// (d) conservation of claimable balances
 				let bals = nodes[n].chain_monitor.chain_monitor.get_monitor(chan_id).unwrap().get_claimable_balances();
+				{
+					for (hi, h) in htlcs.iter().enumerate() {
+						if h.from != n && knows[n].contains(&h.hash) && mknown[n].insert(hi) {
+							mtrace[n].push(format!("P{}", hi));
+						}
+					}
+					let mut obs: Vec<String> = bals.iter().map(|b| match b {
+						Balance::ClaimableAwaitingConfirmations { amount_satoshis, .. } => format!("A{}", amount_satoshis),
+						Balance::ContentiousClaimable { amount_satoshis, .. } => format!("C{}", amount_satoshis),
+						Balance::MaybeTimeoutClaimableHTLC { amount_satoshis, .. } => format!("T{}", amount_satoshis),
+						Balance::MaybePreimageClaimableHTLC { amount_satoshis, .. } => format!("M{}", amount_satoshis),
+						_ => "X0".to_string(),
+					}).collect();
+					obs.sort();
+					mtrace[n].push(format!("O{}#{}", obs.join("."), handed_out[n]));
+				}
 				let mut sum = 0u64;
 				for b in bals.iter() {
 					match counted(b) {
@@ -953,8 +983,45 @@ fn scenario(seed: u64, mode_thorough: bool, trace: bool, descr: &mut String) -> 
 				for n in 0..2 {
 					mains[n] = o[n].map(|v| OutPoint { txid: ctxid, vout: v });
 				}
+				for n in 0..2 {
+					let hs: Vec<String> = htlcs.iter().map(|h| format!("{}.{}.{}.{}", (h.from == n) as u8, h.amt_msat / 1000, h.expiry, h.vout.is_some() as u8)).collect();
+					for (hi, h) in htlcs.iter().enumerate() {
+						if h.from != n && knows[n].contains(&h.hash) {
+							mknown[n].insert(hi);
+						}
+					}
+					mtrace[n].push(format!(
+						"H{}|{}|{}|{}|{}|{}",
+						if n == c { "holder" } else { "counterparty" },
+						new_height,
+						mains[n].map(|m| tx.output[m.vout as usize].value.to_sat()).unwrap_or(0),
+						BREAKDOWN_TIMEOUT,
+						hs.join(","),
+						mknown[n].iter().map(|x| x.to_string()).collect::<Vec<_>>().join(",")
+					));
+				}
 				if trace {
 					println!("T commitment {} confirmed at {}: htlc outputs {:?} mains {:?}", &ctxid.to_string()[..8], new_height, htlc_by_vout, o);
+				}
+			}
+		}
+		if commit_height.is_some() {
+			// spends of HTLC outputs in this block (`S`: in the commitment's own block, `B`: a later block)
+			let tag = if commit_height == Some(new_height) { "S" } else { "B" };
+			for n in 0..2 {
+				let mut sp: Vec<String> = Vec::new();
+				for tx in chosen.iter() {
+					for inp in &tx.input {
+						if inp.previous_output.txid == ctxid {
+							if let Some(hi) = htlc_by_vout.get(&inp.previous_output.vout) {
+								let owner = w.owner.get(&tx.compute_txid()).copied().unwrap_or(9);
+								sp.push(format!("{}.{}.{}", hi, (owner == n) as u8, (owner != htlcs[*hi].from) as u8));
+							}
+						}
+					}
+				}
+				if tag == "B" || !sp.is_empty() {
+					mtrace[n].push(format!("{}{}", tag, sp.join(",")));
 				}
 			}
 		}
@@ -1047,18 +1114,24 @@ fn scenario(seed: u64, mode_thorough: bool, trace: bool, descr: &mut String) -> 
 		}
 	}
 	st.findings = findings.into_iter().collect();
+	for n in 0..2 {
+		if judged(n, c) {
+			st.model.push(mtrace[n].join(" "));
+		}
+	}
 	Ok(st)
 }
 
-fn run_one(seed: u64, thorough: bool, trace: bool) -> String {
+fn run_one(seed: u64, thorough: bool, trace: bool, model: bool) -> String {
 	let mut descr = String::from("null");
 	let r = panic::catch_unwind(AssertUnwindSafe(|| scenario(seed, thorough, trace, &mut descr)));
 	let tier = if thorough { "thorough" } else { "quick" };
 	match r {
 		Ok(Ok(st)) => format!(
-			"R {{\"seed\":{},\"tier\":\"{}\",\"ok\":true,\"cfg\":{},\"stats\":{{\"blocks\":{},\"broadcasts\":{},\"claims_confirmed\":{},\"replacements\":{},\"bumps\":{},\"spendable_events\":{},\"bump_events\":{},\"htlc_outputs\":{},\"lost_to_counterparty\":{},\"spend_checked\":{},\"findings\":[{}]}}}}",
+			"R {{\"seed\":{},\"tier\":\"{}\",\"ok\":true,\"cfg\":{},\"stats\":{{\"blocks\":{},\"broadcasts\":{},\"claims_confirmed\":{},\"replacements\":{},\"bumps\":{},\"spendable_events\":{},\"bump_events\":{},\"htlc_outputs\":{},\"lost_to_counterparty\":{},\"spend_checked\":{},\"findings\":[{}]}}{}}}",
 			seed, tier, descr, st.blocks, st.broadcasts, st.claims_confirmed, st.replacements, st.bumps, st.spendable_events, st.bump_events, st.htlc_outputs, st.lost_to_counterparty, st.spend_checked,
-			st.findings.iter().map(|f| jstr(f)).collect::<Vec<_>>().join(",")
+			st.findings.iter().map(|f| jstr(f)).collect::<Vec<_>>().join(","),
+			if model { format!(",\"model\":[{}]", st.model.iter().map(|m| jstr(m)).collect::<Vec<_>>().join(",")) } else { String::new() }
 		),
 		Ok(Err(f)) if f.why.starts_with("KNOWN:") => format!(
 			"R {{\"seed\":{},\"tier\":\"{}\",\"ok\":true,\"aborted\":true,\"cfg\":{},\"stats\":{{\"findings\":[{}]}},\"detail\":{}}}",
@@ -1096,13 +1169,14 @@ fn main() {
 		let first: u64 = args[2].parse().unwrap();
 		let count: u64 = args[3].parse().unwrap();
 		let thorough = args.get(4).map(|s| s == "thorough").unwrap_or(false);
+		let model = args.get(5).map(|s| s == "model").unwrap_or(false);
 		for s in first..first + count {
-			println!("{}", run_one(s, thorough, false));
+			println!("{}", run_one(s, thorough, false, model));
 		}
 	} else if args.len() >= 3 && args[1] == "replay" {
 		let seed: u64 = args[2].parse().unwrap();
 		let thorough = args.get(3).map(|s| s == "thorough").unwrap_or(false);
-		println!("{}", run_one(seed, thorough, true));
+		println!("{}", run_one(seed, thorough, true, true));
 	} else {
 		eprintln!("usage: h_onchain run <first_seed> <count> [quick|thorough] | replay <seed> [quick|thorough]");
 		std::process::exit(2);
